@@ -18,7 +18,7 @@ from .common import load_configs, guarded, short_ty, TRUSTED
 
 PID = 'C04'
 NT = midi.NEWTYPE_PATH            # short name -> path
-FLOORS = {'newtypes': 6, 'newtype_ctor_sites_K1': 170, 'from_impls_K1': 72, 'tryfrom_impls_K1': 60,
+FLOORS = {'newtypes': 6, 'newtype_ctor_sites_K1': 110, 'from_impls_K1': 72, 'tryfrom_impls_K1': 60,
           'unsafe_ctor_fns_K1': 8, 'fromstr_impls_K1': 6}
 
 
